@@ -290,6 +290,7 @@ type writerSetup struct {
 	Rsv2Ext   int // 0 none, 1 before the message state, 2 after it
 	NoFlush   bool
 	ExtendedS bool
+	FuncExt   bool // message state attached through the wsutil.SendExtensionFunc adapter
 }
 
 func (s writerSetup) state() ws.State {
@@ -306,7 +307,8 @@ func (s writerSetup) state() ws.State {
 func genWriterSetup(t *rapid.T) writerSetup {
 	return writerSetup{
 		Client:    rapid.Bool().Draw(t, "client"),
-		Ctor:      rapid.IntRange(0, 2).Draw(t, "ctor"),
+		Ctor:      rapid.IntRange(0, 5).Draw(t, "ctor"),
+		FuncExt:   rapid.IntRange(0, 2).Draw(t, "funcext") == 0,
 		N:         rapid.SampledFrom(bufSizes).Draw(t, "bufsize"),
 		Rsv2Ext:   rapid.SampledFrom([]int{0, 0, 0, 1, 2}).Draw(t, "rsv2ext"),
 		NoFlush:   rapid.IntRange(0, 9).Draw(t, "noflush") == 0,
@@ -322,8 +324,32 @@ func (s writerSetup) build(dest io.Writer, op ws.OpCode, ms *wsflate.MessageStat
 	case s.Ctor == 1:
 		n := s.N + 14 // raw size incl. header reserve
 		w = wsutil.NewWriterBufferSize(dest, s.state(), op, n)
-	default:
+	case s.Ctor == 2:
 		w = wsutil.NewWriterBuffer(dest, s.state(), op, make([]byte, s.N+14))
+	case s.Ctor == 3:
+		w = wsutil.NewWriter(dest, s.state(), op)
+	case s.Ctor == 4:
+		w = wsutil.GetWriter(dest, s.state(), op, s.N+14) // handed back with PutWriter at the end of the case
+	default:
+		// a writer with a history: other destination, side and opcode, an extension that sets
+		// RSV1 on everything, a fragmented message; then Reset (documented to drop extensions)
+		other := ws.StateClientSide
+		if s.Client {
+			other = ws.StateServerSide
+		}
+		w = wsutil.NewWriterBufferSize(tx.NewRec(), other, ws.OpPing, s.N+14)
+		w.SetExtensions(wsutil.SendExtensionFunc(func(h ws.Header) (ws.Header, error) {
+			h.Rsv |= rsv1
+			return h, nil
+		}))
+		w.Write([]byte("left over from the previous owner"))
+		w.FlushFragment()
+		w.Write([]byte("unflushed"))
+		w.Reset(dest, s.state(), op)
+	}
+	var ext wsutil.SendExtension = ms
+	if s.FuncExt {
+		ext = wsutil.SendExtensionFunc(ms.SetBits)
 	}
 	rsv2 := wsutil.SendExtensionFunc(func(h ws.Header) (ws.Header, error) {
 		h.Rsv |= 0x2
@@ -331,11 +357,11 @@ func (s writerSetup) build(dest io.Writer, op ws.OpCode, ms *wsflate.MessageStat
 	})
 	switch s.Rsv2Ext {
 	case 0:
-		w.SetExtensions(ms)
+		w.SetExtensions(ext)
 	case 1:
-		w.SetExtensions(rsv2, ms)
+		w.SetExtensions(rsv2, ext)
 	default:
-		w.SetExtensions(ms, rsv2)
+		w.SetExtensions(ext, rsv2)
 	}
 	if s.NoFlush {
 		w.DisableFlush()
@@ -396,7 +422,11 @@ func sendControl(t *rapid.T, dest io.Writer, setup writerSetup, ms *wsflate.Mess
 	default:
 		// a fragment writer for control frames with the same message state attached
 		cw := wsutil.NewWriterSize(dest, setup.state(), op, 125)
-		cw.SetExtensions(ms)
+		if setup.FuncExt {
+			cw.SetExtensions(wsutil.SendExtensionFunc(ms.SetBits))
+		} else {
+			cw.SetExtensions(ms)
+		}
 		if _, err = cw.Write(p); err == nil {
 			err = cw.Flush()
 		}
@@ -456,7 +486,18 @@ func TestWriterWire(t *testing.T) {
 				}
 			}
 			for a := rapid.IntRange(0, 7).Draw(t, "actions"); a > 0; a-- {
-				switch rapid.IntRange(0, 9).Draw(t, "action") {
+				switch rapid.IntRange(0, 11).Draw(t, "action") {
+				case 10, 11:
+					p := gen.Filled(genLen(t, "readfrom", w), byte(len(accepted)))
+					rs := tx.NewSrc(p, gen.Chunks(t, "readfrom.chunks"))
+					rs.EOFWithData = rapid.Bool().Draw(t, "readfrom.eofwithdata")
+					n, err := w.ReadFrom(rs)
+					if n != int64(len(p)) {
+						t.Fatalf("ReadFrom(%d bytes) = %d, %v", len(p), n, err)
+					}
+					accepted = append(accepted, p...)
+					wrote = true
+					step(fmt.Sprintf("ReadFrom(%d)", len(p)), err, false)
 				case 0, 1, 2, 3:
 					p := gen.Filled(genLen(t, "write", w), byte(len(accepted)))
 					n, err := w.Write(p)
@@ -469,6 +510,9 @@ func TestWriterWire(t *testing.T) {
 				case 4, 5:
 					step("FlushFragment", w.FlushFragment(), false)
 				case 6:
+					if w.Buffered() != 0 && rapid.Bool().Draw(t, "through.flush-first") {
+						step("FlushFragment", w.FlushFragment(), false)
+					}
 					p := gen.Filled(genLen(t, "through", w), byte(len(accepted)))
 					n, err := w.WriteThrough(p)
 					if w.Buffered() != 0 && err == wsutil.ErrNotEmpty {
@@ -522,6 +566,10 @@ func TestWriterWire(t *testing.T) {
 			if rapid.IntRange(0, 3).Draw(t, "ctl-between") == 0 {
 				sendControl(t, rec, setup, &ms, wt)
 			}
+		}
+		hx.Class(fmt.Sprintf("writer/ctor=%d/funcext=%v", setup.Ctor, setup.FuncExt))
+		if setup.Ctor == 4 {
+			wsutil.PutWriter(w)
 		}
 	})
 }
@@ -605,19 +653,29 @@ func TestReaderSide(t *testing.T) {
 		if server {
 			state = ws.StateServerSide | ws.StateExtended
 		}
-		rd := &wsutil.Reader{Source: src, State: state, Extensions: []wsutil.RecvExtension{&ms}}
+		funcExt := rapid.IntRange(0, 2).Draw(t, "funcext") == 0
+		freshReaders := rapid.IntRange(0, 3).Draw(t, "fresh-reader-per-message") == 0
 		var log []seen
-		if callbacks {
-			rd.OnContinuation = func(h ws.Header, _ io.Reader) error {
-				log = append(log, seen{kind: 'c', h: h, state: ms.IsCompressed()})
-				return nil
+		newReader := func() *wsutil.Reader {
+			var ext wsutil.RecvExtension = &ms
+			if funcExt {
+				ext = wsutil.RecvExtensionFunc(ms.UnsetBits)
 			}
-			rd.OnIntermediate = func(h ws.Header, r io.Reader) error {
-				p, err := io.ReadAll(r)
-				log = append(log, seen{kind: 'i', h: h, state: ms.IsCompressed(), payload: p})
-				return err
+			rd := &wsutil.Reader{Source: src, State: state, Extensions: []wsutil.RecvExtension{ext}}
+			if callbacks {
+				rd.OnContinuation = func(h ws.Header, _ io.Reader) error {
+					log = append(log, seen{kind: 'c', h: h, state: ms.IsCompressed()})
+					return nil
+				}
+				rd.OnIntermediate = func(h ws.Header, r io.Reader) error {
+					p, err := io.ReadAll(r)
+					log = append(log, seen{kind: 'i', h: h, state: ms.IsCompressed(), payload: p})
+					return err
+				}
 			}
+			return rd
 		}
+		rd := newReader()
 
 		hx.Eval()
 		switch {
@@ -650,6 +708,9 @@ func TestReaderSide(t *testing.T) {
 		i := 0
 		for i < len(frames) {
 			f := frames[i]
+			if freshReaders && i > 0 {
+				rd = newReader() // as wsutil.NextReader does: one Reader per message on the same source
+			}
 			h, err := rd.NextFrame()
 			if i == violation {
 				if !isProtocolError(err) {
@@ -695,7 +756,22 @@ func TestReaderSide(t *testing.T) {
 				}
 			}
 			log = log[:0]
-			got, err := io.ReadAll(rd)
+			var got []byte
+			discard := rapid.IntRange(0, 3).Draw(t, "discard") == 0
+			if discard {
+				// read part of the first frame, drop the rest of the message
+				if k := rapid.IntRange(0, len(f.Payload)).Draw(t, "discard.after"); k > 0 {
+					buf := make([]byte, k)
+					n, rerr := rd.Read(buf)
+					if (rerr != nil && rerr != io.EOF) || !bytes.Equal(buf[:n], f.Payload[:n]) {
+						t.Fatalf("message starting at frame %d: first Read(%d) = %x, %v\n%s", i, k, buf[:n], rerr, desc())
+					}
+				}
+				err = rd.Discard()
+				hx.Class("reader/message=discarded-part-way")
+			} else {
+				got, err = io.ReadAll(rd)
+			}
 			if callbacks {
 				k := 0
 				for j := i + 1; j <= stop; j++ {
@@ -725,17 +801,17 @@ func TestReaderSide(t *testing.T) {
 			}
 			if stop != end {
 				if !isProtocolError(err) {
-					t.Fatalf("frame %d (%s with RSV1 inside a message): Read err = %v, want a ws.ProtocolError\n%s", violation, ref.Describe(frames[violation : violation+1])[0], err, desc())
+					t.Fatalf("frame %d (%s with RSV1 inside a message): Read/Discard err = %v, want a ws.ProtocolError\n%s", violation, ref.Describe(frames[violation : violation+1])[0], err, desc())
 				}
-				if !bytes.HasPrefix(want, got) {
+				if !discard && !bytes.HasPrefix(want, got) {
 					t.Fatalf("bytes delivered before the protocol error are not a prefix of the message\n%s", desc())
 				}
 				return
 			}
 			if err != nil {
-				t.Fatalf("message starting at frame %d: Read: %v\n%s", i, err, desc())
+				t.Fatalf("message starting at frame %d: Read/Discard: %v\n%s", i, err, desc())
 			}
-			if !bytes.Equal(got, want) {
+			if !discard && !bytes.Equal(got, want) {
 				t.Fatalf("message starting at frame %d: %d bytes delivered, want %d\n%s", i, len(got), len(want), desc())
 			}
 			if ms.IsCompressed() != flag {
@@ -846,8 +922,28 @@ func TestEndToEnd(t *testing.T) {
 		// ---- sending side
 		rec := tx.NewRec()
 		var msW wsflate.MessageState
-		wr := wsutil.NewWriterSize(rec, wstate, ws.OpBinary, bufSize)
-		wr.SetExtensions(&msW)
+		var wr *wsutil.Writer
+		wctor := rapid.SampledFrom([]int{0, 0, 1, 2, 3}).Draw(t, "writer-ctor")
+		switch wctor {
+		case 0:
+			wr = wsutil.NewWriterSize(rec, wstate, ws.OpBinary, bufSize)
+		case 1:
+			wr = wsutil.NewWriter(rec, wstate, ws.OpBinary)
+		case 2:
+			wr = wsutil.GetWriter(rec, wstate, ws.OpBinary, bufSize+14)
+			defer wsutil.PutWriter(wr)
+		default: // recycled with Reset: extensions are attached again afterwards
+			wr = wsutil.NewWriterBufferSize(tx.NewRec(), ws.StateServerSide, ws.OpText, bufSize+14)
+			wr.Write([]byte("previous owner"))
+			wr.Reset(rec, wstate, ws.OpBinary)
+		}
+		funcExt := rapid.IntRange(0, 2).Draw(t, "funcext") == 0
+		if funcExt {
+			wr.SetExtensions(wsutil.SendExtensionFunc(msW.SetBits))
+		} else {
+			wr.SetExtensions(&msW)
+		}
+		hx.Class(fmt.Sprintf("e2e/writer-ctor=%d/funcext=%v", wctor, funcExt))
 		var fw *wsflate.Writer
 		var msgs []e2eMsg
 		var ctlSent [][]byte
@@ -892,9 +988,17 @@ func TestEndToEnd(t *testing.T) {
 				dst = fw
 			}
 			for _, piece := range gen.Split(t, "split", msg.Payload, 4) {
-				n, err := dst.Write(piece)
+				var n int
+				var err error
+				if !msg.Compressed && rapid.IntRange(0, 2).Draw(t, "readfrom") == 0 {
+					var n64 int64
+					n64, err = wr.ReadFrom(tx.NewSrc(piece, gen.Chunks(t, "readfrom.chunks")))
+					n = int(n64)
+				} else {
+					n, err = dst.Write(piece)
+				}
 				if err != nil || n != len(piece) {
-					t.Fatalf("message %d: Write(%d) = %d, %v", m, len(piece), n, err)
+					t.Fatalf("message %d: Write/ReadFrom(%d) = %d, %v", m, len(piece), n, err)
 				}
 				if msg.Compressed && rapid.IntRange(0, 2).Draw(t, "between.flate-flush") == 0 {
 					if err := fw.Flush(); err != nil {
@@ -990,16 +1094,28 @@ func TestEndToEnd(t *testing.T) {
 		src.EOFWithData = rapid.Bool().Draw(t, "eofwithdata")
 		var msR wsflate.MessageState
 		var ctlGot [][]byte
-		rd := &wsutil.Reader{Source: src, State: rstate, Extensions: []wsutil.RecvExtension{&msR}}
-		rd.OnIntermediate = func(h ws.Header, r io.Reader) error {
-			p, err := io.ReadAll(r)
-			ctlGot = append(ctlGot, append([]byte{byte(h.OpCode)}, p...))
-			return err
+		freshReaders := rapid.IntRange(0, 3).Draw(t, "fresh-reader-per-message") == 0
+		newReader := func() *wsutil.Reader {
+			var ext wsutil.RecvExtension = &msR
+			if funcExt {
+				ext = wsutil.RecvExtensionFunc(msR.UnsetBits)
+			}
+			rd := &wsutil.Reader{Source: src, State: rstate, Extensions: []wsutil.RecvExtension{ext}}
+			rd.OnIntermediate = func(h ws.Header, r io.Reader) error {
+				p, err := io.ReadAll(r)
+				ctlGot = append(ctlGot, append([]byte{byte(h.OpCode)}, p...))
+				return err
+			}
+			return rd
 		}
+		rd := newReader()
 		var fr *wsflate.Reader
 		readBuf := make([]byte, rapid.SampledFrom([]int{1, 3, 64, 512, 4096}).Draw(t, "readbuf"))
 		hx.Eval()
 		for m := 0; m < len(msgs); {
+			if freshReaders {
+				rd = newReader() // one Reader per top-level frame, as wsutil.NextReader does
+			}
 			h, err := rd.NextFrame()
 			if err != nil {
 				t.Fatalf("receiving message %d: NextFrame: %v", m, err)
@@ -1027,6 +1143,21 @@ func TestEndToEnd(t *testing.T) {
 					fr.Reset(rd)
 				}
 				in = fr
+			}
+			if rapid.IntRange(0, 4).Draw(t, "discard") == 0 {
+				// the application loses interest: maybe one read, then the rest of the message is dropped;
+				// the following message must come out right (payload and compressed flag)
+				if rapid.Bool().Draw(t, "discard.read-first") {
+					if _, err := in.Read(readBuf); err != nil && err != io.EOF {
+						t.Fatalf("message %d: first read: %v", m, err)
+					}
+				}
+				if err := rd.Discard(); err != nil {
+					t.Fatalf("message %d (compressed=%v, %d bytes): Discard: %v", m, msg.Compressed, len(msg.Payload), err)
+				}
+				hx.Class(fmt.Sprintf("e2e/message=discarded/compressed=%v", msg.Compressed))
+				m++
+				continue
 			}
 			var got []byte
 			for k := 0; ; k++ {
